@@ -10,43 +10,56 @@ Failed(gs) == {g[1] : g \in {x \in gs : ~x[2]}}
 ObsRow(e, u) == IF ~e.post.row[u].present THEN NoRow
                 ELSE [pw |-> e.post.row[u].pw, expired |-> e.post.row[u].expired, intact |-> e.post.row[u].intact, how |-> row[u].how,
                       age |-> IF "age" \in DOMAIN e.post.row[u] THEN e.post.row[u].age ELSE (IF e.post.row[u].expired THEN 2 ELSE 0)]
+ObsMirror(e, u) == IF "mirror" \notin DOMAIN e.post \/ ~e.post.mirror[u].present THEN NoRow
+                   ELSE [pw |-> e.post.mirror[u].pw, expired |-> e.post.mirror[u].expired, intact |-> e.post.mirror[u].intact, how |-> "none",
+                         age |-> IF "age" \in DOMAIN e.post.mirror[u] THEN e.post.mirror[u].age ELSE (IF e.post.mirror[u].expired THEN 2 ELSE 0)]
 LoginGuards(e) ==
     LET u == e.args.user pw == e.args.pw acc == e.out.accepted IN
     {<<"G_C07_Directory", acc => G_C07_Directory(u, pw)>>,
      <<"G_C07_Cache", acc => G_C07_Cache(u, pw)>>,
      <<"G_C07_MustAccept", MustAccept(u, pw) => acc>>,
-     <<"G_C07_Refresh", (AnyAnswers /\ acc) => (e.post.row[u].present /\ e.post.row[u].pw = pw /\ ~e.post.row[u].expired /\ e.post.row[u].intact)>>,
-     <<"G_C07_Evict", (AnyAnswers /\ ~acc /\ row[u] # NoRow /\ row[u].pw = pw /\ row[u].intact /\ ~row[u].expired) => ~e.post.row[u].present>>,
+     <<"G_C07_Refresh", (AnyAnswers /\ ~dbOut /\ acc) => (e.post.row[u].present /\ e.post.row[u].pw = pw /\ ~e.post.row[u].expired /\ e.post.row[u].intact)>>,
+     <<"G_C07_Evict", (AnyAnswers /\ ~dbOut /\ ~acc /\ row[u] # NoRow /\ row[u].pw = pw /\ row[u].intact /\ ~row[u].expired) => ~e.post.row[u].present>>,
      <<"G_C07_OthersUntouched", \A v \in Users \ {u} : e.post.row[v].present = (row[v] # NoRow)>>}
 
 TInit == /\ dirPw = [u \in Users |-> "p1"] /\ srv = [i \in Servers |-> "up"] /\ row = [u \in Users |-> NoRow]
-         /\ confirmed = {} /\ last = [op |-> "init"] /\ since = [u \in Users |-> 0] /\ l = 1 /\ viol = {}
+         /\ confirmed = {} /\ last = [op |-> "init"] /\ since = [u \in Users |-> 0] /\ mirror = [u \in Users |-> NoRow] /\ dbOut = FALSE /\ mconf = {} /\ l = 1 /\ viol = {}
 TNext == /\ l <= Len(TraceLog)
          /\ LET e == TraceLog[l] IN
             CASE e.ev = "Reset" ->
                    /\ dirPw' = [u \in Users |-> "p1"] /\ srv' = [i \in Servers |-> "up"] /\ row' = [u \in Users |-> NoRow]
-                   /\ confirmed' = {} /\ last' = [op |-> "init"] /\ since' = [u \in Users |-> 0] /\ UNCHANGED viol
+                   /\ confirmed' = {} /\ last' = [op |-> "init"] /\ since' = [u \in Users |-> 0] /\ mirror' = [u \in Users |-> NoRow] /\ dbOut' = FALSE /\ mconf' = {} /\ UNCHANGED viol
               [] e.ev = "login" ->
                    LET bad == Failed(LoginGuards(e)) \cup (IF e.out.panic THEN {"G_C10_NoPanic"} ELSE {}) IN
                    /\ viol' = (IF bad = {} THEN viol ELSE viol \cup {<<l, "login", bad>>})
                    /\ row' = [u \in Users |-> ObsRow(e, u)]
                    /\ confirmed' = (IF AnyAnswers /\ e.out.accepted /\ e.args.pw = dirPw[e.args.user]
-                                    THEN confirmed \cup {<<e.args.user, e.args.pw>>} ELSE confirmed)
+                                    THEN confirmed \cup {<<e.args.user, e.args.pw>>}
+                                    ELSE IF AnyAnswers /\ ~e.out.accepted THEN confirmed \ {<<e.args.user, e.args.pw>>} ELSE confirmed)
                    /\ since' = (IF AnyAnswers /\ e.out.accepted /\ e.args.pw = dirPw[e.args.user]
                                 THEN [since EXCEPT ![e.args.user] = 0] ELSE since)
-                   /\ last' = [op |-> "login"] /\ UNCHANGED <<dirPw, srv>>
-              [] e.ev = "change" -> dirPw' = [dirPw EXCEPT ![e.args.user] = e.args.pw] /\ last' = [op |-> "change"] /\ UNCHANGED <<srv, row, confirmed, viol, since>>
-              [] e.ev = "server" -> srv' = [srv EXCEPT ![e.args.idx] = e.args.state] /\ last' = [op |-> "server"] /\ UNCHANGED <<dirPw, row, confirmed, viol, since>>
+                   /\ mirror' = [u \in Users |-> ObsMirror(e, u)]
+                   /\ last' = [op |-> "login"] /\ UNCHANGED <<dirPw, srv, dbOut, mconf>>
+              [] e.ev = "change" -> dirPw' = [dirPw EXCEPT ![e.args.user] = e.args.pw] /\ last' = [op |-> "change"] /\ UNCHANGED <<srv, row, confirmed, viol, since, mirror, dbOut, mconf>>
+              [] e.ev = "server" -> srv' = [srv EXCEPT ![e.args.idx] = e.args.state] /\ last' = [op |-> "server"] /\ UNCHANGED <<dirPw, row, confirmed, viol, since, mirror, dbOut, mconf>>
               [] e.ev = "expire" -> row' = [row EXCEPT ![e.args.user] = IF @ = NoRow THEN @ ELSE [@ EXCEPT !.expired = TRUE, !.age = 2]]
                                     /\ since' = [since EXCEPT ![e.args.user] = 2]
-                                    /\ last' = [op |-> "expire"] /\ UNCHANGED <<dirPw, srv, confirmed, viol>>
+                                    /\ mirror' = [mirror EXCEPT ![e.args.user] = AgeRow(@, TRUE)]
+                                    /\ last' = [op |-> "expire"] /\ UNCHANGED <<dirPw, srv, confirmed, viol, dbOut, mconf>>
               [] e.ev = "halflife" -> row' = [row EXCEPT ![e.args.user] = IF @ = NoRow THEN @ ELSE [@ EXCEPT !.age = Older(@), !.expired = (Older(row[e.args.user].age) >= 2)]]
                                     /\ since' = [since EXCEPT ![e.args.user] = Older(@)]
-                                    /\ last' = [op |-> "halflife"] /\ UNCHANGED <<dirPw, srv, confirmed, viol>>
+                                    /\ mirror' = [mirror EXCEPT ![e.args.user] = AgeRow(@, FALSE)]
+                                    /\ last' = [op |-> "halflife"] /\ UNCHANGED <<dirPw, srv, confirmed, viol, dbOut, mconf>>
               [] e.ev = "tamper" -> row' = [row EXCEPT ![e.args.user] = IF @ = NoRow THEN @
                                             ELSE IF e.args.how = "extendcolumn" THEN [@ EXCEPT !.how = "extendcolumn"]
                                             ELSE [@ EXCEPT !.intact = FALSE, !.how = e.args.how]]
-                                    /\ last' = [op |-> "tamper"] /\ UNCHANGED <<dirPw, srv, confirmed, viol, since>>
+                                    /\ last' = [op |-> "tamper"] /\ UNCHANGED <<dirPw, srv, confirmed, viol, since, mirror, dbOut, mconf>>
+              [] e.ev = "sync" -> LET bad == Failed({<<"G_C07_ReplicaMirrorsEviction", \A u \in Users : (row[u] = NoRow => ~e.post.mirror[u].present)>>}) IN
+                                  /\ viol' = (IF bad = {} THEN viol ELSE viol \cup {<<l, "sync", bad>>})
+                                  /\ mirror' = [u \in Users |-> ObsMirror(e, u)] /\ last' = [op |-> "sync"] /\ mconf' = confirmed
+                                  /\ UNCHANGED <<dirPw, srv, row, confirmed, since, dbOut>>
+              [] e.ev = "dboutage" -> dbOut' = TRUE /\ last' = [op |-> "dboutage"] /\ UNCHANGED <<dirPw, srv, row, confirmed, since, mirror, viol, mconf>>
+              [] e.ev = "dbrecover" -> dbOut' = FALSE /\ last' = [op |-> "dbrecover"] /\ UNCHANGED <<dirPw, srv, row, confirmed, since, mirror, viol, mconf>>
          /\ l' = l + 1
 TSpec == TInit /\ [][TNext]_<<vars, l, viol>>
 Report == (l = Len(TraceLog) + 1) => PrintT(<<"VIOL", ToJson([n |-> l - 1, viol |-> viol])>>)
